@@ -2225,6 +2225,13 @@ func (db *DB) sync(ctx context.Context, checkpointing bool, exec *syncExecutor, 
 
 	// Exit if we have no new WAL pages and we aren't snapshotting.
 	if !info.snapshotting && sz == 0 {
+		// "Nothing new" is only true for the WAL generation verify() looked at. If
+		// the WAL was restarted since (see verifyWALSalts), frames of the previous
+		// generation that were never copied are gone from the file and the new
+		// generation's frames carry other salts: report it instead of success.
+		if err := verifyWALSalts(walFile, rd.salt1, rd.salt2); err != nil {
+			return result, err
+		}
 		db.Logger.Log(ctx, internal.LevelTrace, "sync: skip", "reason", "no new wal pages")
 		return result, nil
 	}
